@@ -213,6 +213,7 @@ def _diff(  # noqa: C901
 
             if (
                 hash_only
+                and not meta_only
                 and not with_unchanged
                 and not unknown
                 and typ == UNCHANGED
